@@ -109,6 +109,7 @@ def sh(cmd, timeout=600, cwd=None, env=None):
 def impl_env():
     e = dict(os.environ)
     e["PYTHONPATH"] = REPO
+    e["VERIF_REPO"] = REPO
     e["PYTHONHASHSEED"] = "0"
     e["JAX_ENABLE_X64"] = "1"
     e["PYTHONDONTWRITEBYTECODE"] = "1"
